@@ -174,6 +174,21 @@ class Controller:
                 raise MachineryError("a managed thread did not unwind on abort")
 
 
+def expire_waits(ctl: Controller) -> list:
+    """Virtual time: more time than any finite timeout goes by while no thread moves.  Every managed thread that waits
+    with a BOUNDED timeout for a lock it cannot get has its acquire return False and runs to its next scheduling point;
+    unbounded waits keep waiting.  Returns the tids whose wait expired."""
+    expired = []
+    for tid, mt in list(ctl.threads.items()):
+        at = mt.at
+        if (not mt.done and at and at[0] in ("acquire", "blocked") and isinstance(at[1], SLock)
+                and getattr(mt, "wait_bounded", False) and not at[1].free_for(mt)):
+            mt.wait_expired = True
+            ctl.resume(tid)
+            expired.append(tid)
+    return expired
+
+
 # ------------------------------------------------------------------------------------------
 # lock stand-ins
 
@@ -202,9 +217,17 @@ class SLock:
     def acquire(self, blocking=True, timeout=-1):
         me = self._me()
         if self.ctl.scheduling(self.group):
+            # a bounded wait (`acquire(True, timeout)`) is remembered on the managed thread: virtual time does not pass by
+            # itself, a driver lets "more time than any timeout" go by with :func:`expire_waits` (C14 `Elapse`)
+            bounded = bool(blocking) and timeout is not None and timeout >= 0
+            if isinstance(me, MThread):
+                me.wait_bounded, me.wait_expired = bounded, False
             self.ctl.park("acquire", self)
             while not self.free_for(me):
                 if not blocking:
+                    return False
+                if bounded and getattr(me, "wait_expired", False):
+                    me.wait_expired = False
                     return False
                 self.ctl.park("blocked", self)
         elif not self.free_for(me):
